@@ -67,10 +67,16 @@ func c17Faults(counts map[string]int, regs int, tier string) []ATEpisode {
 			for _, kind := range kinds {
 				out = append(out, ATEpisode{Fault: fmt.Sprintf("db-%s:%s#%d", kind, cl, k), DBFaults: []DBFault{{Class: cl, Nth: k, Kind: kind, Num: 1205}}})
 			}
+			if cl == "insert" || cl == "update" || cl == "delete" {
+				// the statement fails (duplicate key), the application carries on and
+				// lets the global transaction commit (autocommit programs only)
+				out = append(out, ATEpisode{Fault: fmt.Sprintf("db-error:%s#%d+app-continues", cl, k), AppContinues: true, DBFaults: []DBFault{{Class: cl, Nth: k, Kind: "error", Num: 1062}}})
+			}
 		}
 	}
 	for k := 1; k <= regs && k <= 2; k++ {
 		out = append(out, ATEpisode{Fault: fmt.Sprintf("register-fail#%d", k), TCRules: []simtc.Rule{{Code: simtc.TBranchRegister, Nth: k, Action: simtc.ActFail}}})
+		out = append(out, ATEpisode{Fault: fmt.Sprintf("register-fail-nocode#%d", k), TCRules: []simtc.Rule{{Code: simtc.TBranchRegister, Nth: k, Action: simtc.ActFailNoCode}}})
 	}
 	// a failing business statement makes the client end the branch with failure
 	// and roll it back in phase one: a second fault at those commands
@@ -170,6 +176,7 @@ func runC17(t *testing.T, seed uint64, planJSON []byte, tier string) (res *Resul
 		w.CreateUndoLog(atSchema)
 		// reference server for the expected committed data
 		srvB := simdb.NewServer("simdb1", plan.Cfg.ServerVersion)
+		applyServerCfg(srvB, plan.Cfg)
 		c16DriverSeq++
 		nameB := fmt.Sprintf("simdb-c17-bare-%d", c16DriverSeq)
 		sql.Register(nameB, &simdb.Driver{Srv: srvB, NoHook: true})
@@ -219,7 +226,35 @@ func runC17(t *testing.T, seed uint64, planJSON []byte, tier string) (res *Resul
 				}
 				refDB := &atRun{w: w, plan: ap, prop: "none", res: res, db: dbB}
 				var outB []stmtRes
-				refDB.runBusiness(context.Background(), ep, &outB)
+				refEp := ep
+				if ep.AppContinues {
+					// the plain run leaves out the statements that failed
+					cp := *ep
+					cp.Branches = nil
+					for bi, br := range ep.Branches {
+						nb := br
+						nb.Stmts = nil
+						for si, st := range br.Stmts {
+							failed := false
+							for _, sr := range o.stmts {
+								if sr.Branch == bi && sr.Idx == si && sr.Err != nil {
+									failed = true
+								}
+							}
+							if !failed {
+								nb.Stmts = append(nb.Stmts, st)
+							}
+						}
+						if br.Explicit && len(nb.Stmts) != len(br.Stmts) {
+							// (an explicit local transaction is rolled back by the
+							// application when one of its statements fails)
+							nb.Stmts = nil
+						}
+						cp.Branches = append(cp.Branches, nb)
+					}
+					refEp = &cp
+				}
+				refDB.runBusiness(context.Background(), refEp, &outB)
 				refRes = outB
 				if ep.Outcome == "commit" {
 					want = appSnapshot(srvB.Snapshot())
@@ -249,6 +284,12 @@ func runC17(t *testing.T, seed uint64, planJSON []byte, tier string) (res *Resul
 			for _, fe := range c17Faults(counts, regs, tier) {
 				ep := tmpl
 				ep.Fault, ep.DBFaults, ep.TCRules = fe.Fault, fe.DBFaults, fe.TCRules
+				if fe.AppContinues {
+					if (len(ep.Branches) > 0 && ep.Branches[0].Explicit) || ep.Outcome != "commit" {
+						continue
+					}
+					ep.AppContinues, ep.StopOnErr, ep.RetryOnce = true, false, false
+				}
 				plan.Episodes = append(plan.Episodes, ep)
 			}
 		}
@@ -342,6 +383,7 @@ func (r *atRun) checkC17(o *episodeObs, want simdb.Snapshot, ref []stmtRes) {
 	curID := map[int]string{}
 	ci := 0
 	nBusiness := 0
+	stmtFailedIn := map[string]bool{} // XA identifier -> a business statement failed inside that branch
 	for i, e := range j {
 		for ci < len(cmds) && cmds[ci].idx == i {
 			c := cmds[ci]
@@ -364,6 +406,9 @@ func (r *atRun) checkC17(o *episodeObs, want simdb.Snapshot, ref []stmtRes) {
 		}
 		if e.Kind == "CLOSE" {
 			state[e.Conn], curID[e.Conn] = "", ""
+		}
+		if (e.Class == "insert" || e.Class == "update" || e.Class == "delete") && e.Err != "" && state[e.Conn] == "ACTIVE" {
+			stmtFailedIn[curID[e.Conn]] = true
 		}
 		if (e.Class == "insert" || e.Class == "update" || e.Class == "delete") && e.Err == "" && !r.isBare(e) {
 			nBusiness++
@@ -468,6 +513,18 @@ func (r *atRun) checkC17(o *episodeObs, want simdb.Snapshot, ref []stmtRes) {
 				failedBeforePrepare = true
 			}
 		}
+		if stmtFailedIn[id] && !explicit {
+			// (autocommit: the statement is the branch)
+			failedBeforePrepare = true
+		}
+		if failedBeforePrepare && !committed {
+			for _, c := range seq {
+				if c.cmd == "COMMIT" {
+					r.violate("C17", "failure-means-rollback", "commit-attempted-after-failure-"+cls, "episode %d (%s): branch %q met a failure before PREPARE succeeded, and XA COMMIT was sent for it afterwards (the database answered %q): %s", o.idx, ep.Fault, id, c.err, text)
+					break
+				}
+			}
+		}
 		if failedBeforePrepare && committed {
 			r.violate("C17", "failure-means-rollback", "commit-after-failure-"+cls, "episode %d (%s): branch %q met a failure before PREPARE succeeded and was committed afterwards: %s", o.idx, ep.Fault, id, text)
 		}
@@ -510,6 +567,12 @@ func (r *atRun) checkC17(o *episodeObs, want simdb.Snapshot, ref []stmtRes) {
 	// (4) data
 	final := appSnapshot(o.final)
 	switch {
+	case ep.AppContinues:
+		if o.gerr == nil && want != nil {
+			if d := simdb.Diff(want, final); len(d) > 0 {
+				r.violate("C17", "committed-data", "data-differs-from-plain-run-"+cls, "episode %d (%s): the application went on after the failed statement and the global transaction committed, but the tables differ from a plain execution of the statements that succeeded (plain -> xa): %s", o.idx, ep.Fault, diffSummary(d))
+			}
+		}
 	case ep.Outcome == "commit" && ep.Fault == "" && !anyErr && want != nil:
 		if d := simdb.Diff(want, final); len(d) > 0 {
 			r.violate("C17", "committed-data", "data-differs-from-plain-run-"+cls, "episode %d: after the committed global transaction the tables differ from a plain execution of the program (plain -> xa): %s", o.idx, diffSummary(d))
